@@ -54,7 +54,15 @@ def int_only_value(r, depth=0, big=False):
         return r.random() < 0.5
     if c < 0.46:
         return 's' * r.randint(0, 4)
-    return ladder_int(r)
+    n = ladder_int(r)
+    c = r.random()
+    if c < 0.04:
+        from sim.values import IntSub
+        return IntSub(n)        # an int subclass is an integer too
+    if c < 0.08:
+        from sim.values import int_enum
+        return int_enum(n)      # ... and so is an IntEnum member
+    return n
 
 
 def ladder_int(r):
@@ -333,6 +341,19 @@ def build_catalogue(check, seed, size):
         cat.append(op)
         twins.append({'op': 'marshal', 'frame': op['frame']})
     if check in ('C12', 'C16'):
+        # the all-defaults payload of every method class, decoded (twice in
+        # a history: a decoder may treat "nothing but defaults" specially)
+        for ci, name in enumerate(classes):
+            data = _try_encode({'k': 'method', 'cls': name, 'ch': 0,
+                                'args': {}})
+            if data is None:
+                continue
+            gi = 500 + ci
+            cat.append({'op': 'unmarshal', 'b': data.hex(),
+                        'confusable': gi})
+            cat.append({'op': 'remarshal', 'b': data.hex(),
+                        'confusable': gi})
+            twins.append({'op': 'remarshal', 'b': data.hex()})
         # tables as foreign peers send them (decoded, then held, edited and
         # re-encoded by the caller), tables with run-wide distinct keys, and
         # decimals with many places as only crafted bytes carry
@@ -862,6 +883,8 @@ def gen_trace(rng, check, population, tier, cat):
                        'picks': [r.randrange(8) for _ in range(6)]}
     if r.random() < 0.15:
         tr['debug_log'] = True
+        if r.random() < 0.4:
+            tr['log_reenter'] = True   # the log handler uses pamqp itself
     ncancel = r.choice([0, 0, 0, 1, 2]) if check in ('C16', 'C12') else 0
     tr['cancels'] = sorted(r.randint(1, max(2, est)) for _ in range(ncancel))
     return tr
